@@ -230,14 +230,46 @@ func checkC10(p *Prog, r *Report) {
 		{
 			g := p.CFG(run)
 			var sendBlock *Block
+			var doneObj types.Object // the completion channel placed in the submitted task
 			for _, b := range g.Blocks {
 				for _, e := range b.Succs {
 					if e.Cond != nil && e.Cond.Op == "comm" {
 						if s, ok := e.Cond.Stmt.(*ast.SendStmt); ok && p.IsField(s.Chan, "taskloop.Loop.tasks") {
 							sendBlock = e.To
+							if cl, ok := unparen(s.Value).(*ast.CompositeLit); ok {
+								for _, el := range cl.Elts {
+									v := el
+									if kv, ok := el.(*ast.KeyValueExpr); ok {
+										v = kv.Value
+									}
+									if id, ok := unparen(v).(*ast.Ident); ok {
+										if _, isChan := p.TypeOf(id).Underlying().(*types.Chan); isChan {
+											doneObj = p.ObjOf(id)
+										}
+									}
+								}
+							}
 						}
 					}
 				}
+			}
+			// resolves aliases of the completion channel (finished := done)
+			isDone := func(e ast.Expr) bool {
+				for i := 0; i < 4; i++ {
+					id, ok := unparen(e).(*ast.Ident)
+					if !ok {
+						return false
+					}
+					if p.ObjOf(id) == doneObj && doneObj != nil {
+						return true
+					}
+					d, ok := p.SingleDef(run, p.ObjOf(id))
+					if !ok || d.Rhs == nil {
+						return false
+					}
+					e = d.Rhs
+				}
+				return false
 			}
 			if r.Anchor("taskloop.Run: send case", sendBlock != nil) {
 				isDoneRecv := func(n ast.Node) bool {
@@ -247,7 +279,7 @@ func checkC10(p *Prog, r *Report) {
 					}
 					ast.Inspect(n, func(x ast.Node) bool {
 						if u, ok := x.(*ast.UnaryExpr); ok && u.Op == token.ARROW {
-							if id, ok := unparen(u.X).(*ast.Ident); ok && id.Name == "done" {
+							if isDone(u.X) {
 								found = true
 							}
 						}
